@@ -42,6 +42,8 @@ def scenario(draw, tier="quick"):
         cfg = {"place_latency": 0.12, "cancel_latency": 0.17, "update_latency": 0.15, "replace_latency": 0.28}
     if draw(st.integers(0, 2)) == 0:
         cfg["simulated_strategy_isolation"] = False  # the per-instance matching path
+    if draw(st.integers(0, 3)) == 0:
+        cfg["async_place_orders"] = True  # placements sent asynchronously: same latency and bet delay apply
     markets = []
     strategies_scripts = []
     for mi in range(nm):
@@ -113,6 +115,8 @@ def check(sc, metamorphic=True):
     classes = set()
     if cfg.get("simulated_strategy_isolation") is False:
         classes.add("isolation-off")
+    if cfg.get("async_place_orders"):
+        classes.add("async-placement")
     nt = False
     ups = [r.updates for r in lb.renderers]
     mid = [m["id"] for m in sc["markets"]]
